@@ -398,6 +398,95 @@ def rule_MP9(rep, prog):
                     % (bad[0].loc if bad else ""), sample={"configure": c.loc})
 
 
+def rule_OD12(rep, prog):
+    rid = rep.rule("C11-OD12", "a pending dispatch_source_set_timer configuration is applied BEFORE anything merged under the old settings is delivered: in "
+                   "_dispatch_source_invoke2 no path on which the source was found to need configuration (and not cancelled) reaches the event-handler delivery "
+                   "without passing _dispatch_timer_unote_configure (which discards the stale pending data) - it returns to the manager queue instead", floor=1)
+    fn = prog.fn("_dispatch_source_invoke2")
+    rep.saw(fn)
+    ncs = calls_named(fn, "_dispatch_source_refs_needs_configuration")
+    if not ncs:
+        ncs = [t for t in fn.all_insts() if t.op == "icmp" and t.d["pred"] == "ne" and t.ops[1][0] == "n" and fn.inst(t.ops[0]) is not None
+               and fn.inst(t.ops[0]).op == "load" and "dt_pending_config" in prog.fields(fn.inst(t.ops[0]))]
+    conf = calls_named(fn, "_dispatch_timer_unote_configure")
+    deliver = calls_named(fn, "_dispatch_source_latch_and_call")
+    k = consts.get(["DSF_CANCELED"], unit="source")
+    if not ncs or not conf or not deliver:
+        rep.unknown(rid, "anchor vanished in _dispatch_source_invoke2 (needs-configuration tests=%d, configure calls=%d, deliveries=%d)" % (len(ncs), len(conf), len(deliver)))
+        return
+    def cancel_tests():
+        out = []
+        for t in fn.all_insts():
+            if t.op == "icmp" and t.d["pred"] in ("eq", "ne") and t.ops[1][0] == "c" and t.ops[1][1] == 0:
+                a = fn.inst(t.ops[0])
+                if a is not None and a.op == "and" and a.ops[1][0] == "c" and (a.ops[1][1] & k["DSF_CANCELED"]):
+                    out.append(t)
+        return out
+    cts = cancel_tests()
+    for nc in ncs:
+        ctx = paths.PathCtx(fn)
+        ctx.truth[nc.id] = True
+        bad = []
+        for kind, inst, cx, path in paths.walk(fn, nc, lambda i: i in deliver, avoid=lambda i: i in conf, ctx=ctx):
+            if kind != "hit":
+                continue
+            # the first cancellation test after the needs-configuration test decides whether the configuration may be skipped
+            first = None
+            for b in path:
+                for i in fn.blocks[b].insts:
+                    if i in cts and first is None and (b != nc.block.id or fn.blocks[b].insts.index(i) > fn.blocks[b].insts.index(nc)):
+                        first = i
+            cancelled = first is not None and cx.truth.get(first.id) == (first.d["pred"] == "ne")
+            if not cancelled:
+                bad.append(path)
+        rep.require(rid, not bad, nc.loc, fn.name, "delivery-before-pending-configuration",
+                    "_dispatch_source_invoke2 can deliver the event handler on a path where a pending timer configuration was seen (source not cancelled) and not yet "
+                    "applied (path %s): a fire merged under the OLD settings - already queued behind a busy target queue when dispatch_source_set_timer was called - "
+                    "runs the handler before the new start time" % (bad[0] if bad else None), sample={"test": nc.loc})
+
+
+def rule_TB13(rep, prog):
+    rid = rep.rule("C11-TB13", "_dispatch_timer_unote_configure REPLACES the clock of the timer: after it the clock field of du_timer_flags equals the configured "
+                   "clock for every (old clock, new clock) pair and the other flag bits are unchanged", floor=9)
+    from dqsa import consts as _c
+    k = _c.get(["_DISPATCH_TIMER_CLOCK_MASK"], unit="event/event")
+    CM = k["_DISPATCH_TIMER_CLOCK_MASK"]
+    sh = (CM & -CM).bit_length() - 1
+    fn = prog.fn("_dispatch_timer_unote_configure")
+    rep.saw(fn)
+    fl = [l for l in fn.all_insts() if l.op == "load" and "du_timer_flags" in prog.fields(l)]
+    cl = [l for l in fn.all_insts() if l.op == "load" and "dtc_clock" in prog.fields(l)]
+    sts = [st for st in fn.all_insts() if st.op == "store" and "du_timer_flags" in prog.fields(st)]
+    if not fl or not cl or not sts:
+        rep.unknown(rid, "anchor vanished in _dispatch_timer_unote_configure (flag loads=%d, clock loads=%d, flag stores=%d)" % (len(fl), len(cl), len(sts)))
+        return
+    for oldc in (0, 1, 2):
+        for newc in (0, 1, 2):
+            for other in (0x1, 0x2 | 0x10):
+                other &= ~CM & 0xff
+                f0 = other | (oldc << sh)
+                env = {l.id: f0 for l in fl}
+                env.update({l.id: newc for l in cl})
+                final = [f0]
+                def rec(i, env=env, final=final):
+                    if i in sts:
+                        v = ceval(fn, i.ops[0], {k_: v_ for k_, v_ in env.items() if not isinstance(v_, tuple)})
+                        final.append(v)
+                        if v is not None:
+                            for l in fl:
+                                if fn.inst_reaches(i, l):
+                                    env[l.id] = v
+                    return i.op == "call" and i.callee == "free"
+                concrete_walk(fn, env, rec)
+                v = final[-1]
+                ok = v is not None and ((v & CM) >> sh) == newc and (v & ~CM & 0xff) == other
+                rep.require(rid, ok, sts[0].loc, fn.name, "timer-clock-not-replaced:%d:%d" % (oldc, newc),
+                            "_dispatch_timer_unote_configure leaves du_timer_flags = %s for a timer on clock %d (other bits %#x) re-set to clock %d: the clock field must "
+                            "become %d and nothing else may change - with the old bits ORed in, a wall/monotonic timer re-set to an uptime start stays in its old heap, "
+                            "its uptime target is compared with wall 'now' and it fires at once" % (hex(v) if v is not None else "?", oldc, other, newc, newc),
+                            sample={"old_clock": oldc, "new_clock": newc})
+
+
 def rule_TB10(rep, prog):
     rid = rep.rule("C11-TB10", "the kernel timer's bookkeeping mirrors the epoll operation just performed: after epoll_ctl(op) on a timerfd both det_registered and "
                    "det_armed are set, unconditionally, to (op != EPOLL_CTL_DEL); the next arm then chooses ADD / MOD correctly", floor=2)
@@ -475,6 +564,10 @@ def run(rep, tier="quick", srcdir=None, only=None):
         rule_TB10(rep, prog)
     if want("C11-MP11"):
         rule_MP11(rep, prog)
+    if want("C11-OD12"):
+        rule_OD12(rep, prog)
+    if want("C11-TB13"):
+        rule_TB13(rep, prog)
 
 
 MANIFEST = {
